@@ -176,7 +176,7 @@ it, the new subtree `s'` is represented there, and the node above now points to 
 with `s'` in place of the old subtree is represented -/
 theorem Rep.replace {h h' : Heap} {t : ITree} {p0 : Nat} (hr : Rep h t p0) (hnd : t.ids.Nodup) (q : Path)
     (s' : ITree)
-    (hout : ∀ i, i ≠ 0 → i ∉ (t.subtree q).ids → i ≠ parentAt t p0 q → h'.get i = h.get i)
+    (hout : ∀ i ∈ t.ids, i ∉ (t.subtree q).ids → i ≠ parentAt t p0 q → h'.get i = h.get i)
     (hsub : Rep h' s' (parentAt t p0 q))
     (hpar : ∀ q0 d, q = q0 ++ [d] → h'.get (parentAt t p0 q) = withChild (h.get (parentAt t p0 q)) d s'.rid) :
     Rep h' (t.replace q s') p0 := by
@@ -198,12 +198,12 @@ theorem Rep.replace {h h' : Heap} {t : ITree} {p0 : Nat} (hr : Rep h t p0) (hnd 
         cases d with
         | L =>
           simp only [ITree.replace, ITree.replace_root]
-          refine ⟨h1, by rw [hp, h2]; rfl, hsub, h4.frame (fun i hi => hout i (h4.ids_ne i hi) ?_ ?_)⟩
+          refine ⟨h1, by rw [hp, h2]; rfl, hsub, h4.frame (fun i hi => hout i (by simp [hi]) ?_ ?_)⟩
           · simp only [ITree.subtree_L, ITree.subtree_root]; intro hx; exact hdisj i hx i hi rfl
           · intro e; exact hidr (e ▸ hi)
         | R =>
           simp only [ITree.replace, ITree.replace_root]
-          refine ⟨h1, by rw [hp, h2]; rfl, h3.frame (fun i hi => hout i (h3.ids_ne i hi) ?_ ?_), hsub⟩
+          refine ⟨h1, by rw [hp, h2]; rfl, h3.frame (fun i hi => hout i (by simp [hi]) ?_ ?_), hsub⟩
           · simp only [ITree.subtree_R, ITree.subtree_root]; intro hx; exact hdisj i hi i hx rfl
           · intro e; exact hidl (e ▸ hi)
       | cons e q' =>
@@ -219,9 +219,9 @@ theorem Rep.replace {h h' : Heap} {t : ITree} {p0 : Nat} (hr : Rep h t p0) (hnd 
             · exact ⟨fun x => hidl (x ▸ hm), fun i hi x => hdisj _ hm i hi x.symm⟩
           simp only [ITree.replace]
           refine ⟨h1, ?_, ?_, ?_⟩
-          · rw [ITree.rid_replace_cons, hout id h1 (fun hx => hidl (ITree.ids_subtree_subset l _ id hx)) hpn.1.symm, h2]
-          · exact ih h3 hndl hout hsub (fun q0 d2 hq => hpar (.L :: q0) d2 (by simp [hq]))
-          · exact h4.frame (fun i hi => hout i (h4.ids_ne i hi) (fun hx => hdisj i (ITree.ids_subtree_subset l _ i hx) i hi rfl) (hpn.2 i hi))
+          · rw [ITree.rid_replace_cons, hout id (by simp) (fun hx => hidl (ITree.ids_subtree_subset l _ id hx)) hpn.1.symm, h2]
+          · exact ih h3 hndl (fun i hi => hout i (by simp [hi])) hsub (fun q0 d2 hq => hpar (.L :: q0) d2 (by simp [hq]))
+          · exact h4.frame (fun i hi => hout i (by simp [hi]) (fun hx => hdisj i (ITree.ids_subtree_subset l _ i hx) i hi rfl) (hpn.2 i hi))
         | R =>
           rw [parentAt_R] at hout hsub hpar
           simp only [ITree.subtree_R] at hout
@@ -233,7 +233,7 @@ theorem Rep.replace {h h' : Heap} {t : ITree} {p0 : Nat} (hr : Rep h t p0) (hnd 
             · exact ⟨fun x => hidr (x ▸ hm), fun i hi x => hdisj i hi _ hm x⟩
           simp only [ITree.replace]
           refine ⟨h1, ?_, ?_, ?_⟩
-          · rw [ITree.rid_replace_cons, hout id h1 (fun hx => hidr (ITree.ids_subtree_subset r _ id hx)) hpn.1.symm, h2]
-          · exact h3.frame (fun i hi => hout i (h3.ids_ne i hi) (fun hx => hdisj i hi i (ITree.ids_subtree_subset r _ i hx) rfl) (hpn.2 i hi))
-          · exact ih h4 hndr hout hsub (fun q0 d2 hq => hpar (.R :: q0) d2 (by simp [hq]))
+          · rw [ITree.rid_replace_cons, hout id (by simp) (fun hx => hidr (ITree.ids_subtree_subset r _ id hx)) hpn.1.symm, h2]
+          · exact h3.frame (fun i hi => hout i (by simp [hi]) (fun hx => hdisj i hi i (ITree.ids_subtree_subset r _ i hx) rfl) (hpn.2 i hi))
+          · exact ih h4 hndr (fun i hi => hout i (by simp [hi])) hsub (fun q0 d2 hq => hpar (.R :: q0) d2 (by simp [hq]))
 end CC.PTree
